@@ -425,6 +425,74 @@ pub fn exhaustive_cases(len: usize) -> Vec<Case> {
     out
 }
 
+/// Clients that construct their server concurrently on a brand-new store (the salt object is
+/// created by whoever gets there first; everybody must end up deriving the key from the stored
+/// salt), then run their scripts.
+pub fn check_init_case(c: &Case) -> CheckResult {
+    use taskchampion::server::verif::cloud_server_new;
+    let mut rep = CaseReport::default();
+    let store = ObjectStore::new(c.page_size as usize);
+    set_draws(vec![], Some(255));
+    let secret = b"c09 init secret".to_vec();
+    let mut clients: Vec<Client<'_, Vec<Event>>> = vec![];
+    for (i, script) in c.scripts.iter().enumerate() {
+        let h = store.handle(i);
+        h.set_gated(true);
+        let secret = secret.clone();
+        let script = script.clone();
+        clients.push(Box::pin(async move {
+            match cloud_server_new(h, secret).await {
+                Ok(srv) => run_client(srv, i, script, vec![]).await,
+                Err(e) => vec![Event::Error(format!("constructing the server failed: {e}"))],
+            }
+        }));
+    }
+    let res = run_scheduled(clients, &c.schedule);
+    let log = store.log();
+    let salts: Vec<&StoreRequest> = log.iter().filter(|r| r.kind == "cas" && r.name == "salt").collect();
+    if salts.len() >= 2 {
+        rep.class("two-clients-tried-to-create-the-salt");
+    }
+    let Some((_, salt)) = store.raw_get("salt") else {
+        crate::fail!("no-salt", "no salt object after the clients initialised");
+    };
+    let cryptor = Cryptor::new(&salt, &secret).map_err(|e| Failure::new("cryptor-new", format!("{e}")))?;
+    let st = Setup {
+        store,
+        cryptor,
+        initial: vec![],
+    };
+    judge(&st, &res.outputs, &log, &mut rep, false).map_err(|mut f| {
+        f.msg = format!("(clients constructed concurrently on an empty store) {}", f.msg);
+        f
+    })?;
+    rep.nontrivial = salts.len() >= 2;
+    Ok(rep)
+}
+
+pub fn init_strategy() -> BoxedStrategy<Case> {
+    (1u8..4, 2usize..=3)
+        .prop_flat_map(|(page_size, clients)| {
+            (
+                proptest::collection::vec(
+                    proptest::collection::vec(
+                        prop_oneof![3 => Just(COp::Add { stale: false }), 2 => any::<u16>().prop_map(|sel| COp::GetChild { sel }), 1 => Just(COp::Walk)],
+                        1..=3,
+                    ),
+                    clients,
+                ),
+                proptest::collection::vec(any::<u8>(), 0..24),
+            )
+                .prop_map(move |(scripts, schedule)| Case {
+                    initial_chain: 0,
+                    page_size,
+                    scripts,
+                    schedule,
+                })
+        })
+        .boxed()
+}
+
 pub fn render(c: &Case) -> serde_json::Value {
     serde_json::json!({
         "initial_chain_length": c.initial_chain, "list_page_size": c.page_size,
@@ -445,6 +513,16 @@ pub fn run(e: &Engine) {
         render,
         check_case,
     );
+    e.set_shrink_iters(30);
+    e.campaign(
+        "concurrent-initialisation",
+        "2-3 clients construct their server (salt creation, key derivation from the stored salt) concurrently on a brand-new store under a generated schedule, then add versions / read children / walk; every client and a fresh client that derives its key from the stored salt must be able to read every accepted version; non-trivial = two clients attempted to create the salt",
+        e.tier.pick(64, 1500),
+        init_strategy,
+        render,
+        check_init_case,
+    );
+    e.set_shrink_iters(4000);
     e.fuzz_corpus("c09_sched");
     e.fuzz_campaign("c09_sched", 500000);
 }
